@@ -34,6 +34,7 @@ CONSTANTS Cbs = {%s}
   SlotSize = 2
   Gap = 100
   Sigs = {"i","d"}
+  Cap = 2
   Variant = "%s"
 VIEW View
 PROPERTY ISpec
@@ -45,7 +46,7 @@ INVARIANT DistinctLive
 INVARIANT FreeDisjointLive
 INVARIANT FreeNoDup
 INVARIANT BoundOwn
-INVARIANT InsideBlocks"""
+INVARIANT InsideMapping"""
 
 IMPL_CFG = """SPECIFICATION TSpec
 CONSTANTS Cbs = {0}
@@ -53,6 +54,7 @@ CONSTANTS Cbs = {0}
   SlotSize = %d
   Gap = %d
   Sigs = {"i"}
+  Cap = 0
   Variant = "faithful"
 CHECK_DEADLOCK FALSE
 """
@@ -178,6 +180,47 @@ def gen_burst(rng, n):
     return ops
 
 
+def gen_bigburst(rng, n, bounds):
+    """tens of thousands of callbacks alive at once (more_core's 14th chunk and beyond): create n, call
+    every 50th one and all those of the last two chunks, through the cdata and from C; free a sample,
+    create as many again (reuse across chunks) and call those.  The process then ends with
+    everything alive (recording n drops would only make the allocator fold quadratic)."""
+    ops, sig = [], {}
+    for c in range(1, n + 1):
+        s = rng.choice(SIGKINDS)
+        sig[c] = s
+        ops.append(["create", c, s])
+    inner = [b for b in bounds if b < n]
+    last2 = inner[-2] if len(inner) >= 2 else 0
+    for c in range(1, n + 1):
+        if c % 50 == 0 or c > last2:
+            ops.append(["call", c, "cdata" if c % 2 else "C", call_args(rng, sig[c])])
+    victims = rng.sample(range(1, n + 1), min(2000, n // 4))
+    for c in victims:
+        ops.append(["drop", c])
+    for k in range(len(victims)):
+        c = n + 1 + k
+        sig[c] = rng.choice(SIGKINDS)
+        ops.append(["create", c, sig[c]])
+        ops.append(["call", c, "C" if c % 2 else "cdata", call_args(rng, sig[c])])
+    return ops
+
+
+def shard(ideal, k=64):
+    """Split the ideal trace of a huge session into k traces by address (a callback's events go to the
+    trace of its address modulo k).  Sound for the ideal: the only clause relating two callbacks is
+    'distinct addresses', and callbacks of different traces have different addresses by construction.
+    -> list of (trace, positions in the original trace)"""
+    where, parts = {}, [([], []) for _ in range(k)]
+    for i, e in enumerate(ideal):
+        if e["ev"] == "create":
+            where[e["c"]] = e["a"] % k
+        w = where.get(e["c"], 0)
+        parts[w][0].append(e)
+        parts[w][1].append(i)
+    return [p for p in parts if p[0]]
+
+
 def gen_from_graph(g, rng, npaths, cover):
     """spec -> code: paths of the explored graph of Closures.tla (3 callbacks, 2 signatures), each
     followed by dropping what it left alive; callback ids are made unique per path"""
@@ -280,17 +323,19 @@ def to_traces(events):
     """-> (ideal trace with addresses renamed, implementation-model trace, real addresses of creates,
     index of the recorded event behind every entry of the ideal trace)"""
     aid, ideal, impl, addrs, src = {}, [], [], [], []
+    created = {}           # callback -> number of its create (for the allocator fold)
     for ei, e in enumerate(events):
         ev = e["ev"]
         n0 = len(ideal)
         if ev == "create":
             a = aid.setdefault(e["addr"], len(aid) + 1)
             ideal.append({"ev": "create", "c": e["c"], "a": a})
-            impl.append({"ev": "create", "c": e["c"], "s": e["s"]})
+            impl.append({"ev": "create"})
             addrs.append(e["addr"])
+            created[e["c"]] = len(addrs)
         elif ev == "drop":
             ideal.append({"ev": "drop", "c": e["c"]})
-            impl.append({"ev": "drop", "c": e["c"]})
+            impl.append({"ev": "drop", "j": created.pop(e["c"], 0)})
         elif ev == "gc":
             for c in e["dropped"]:
                 ideal.append({"ev": "drop", "c": c})
@@ -319,8 +364,10 @@ def predict(ctx, impl_traces, page, slot):
     out = life_common.verdicts(ctx, "Trace_ClosuresImpl", impl_traces, cfg_text=IMPL_CFG % (page, slot, GAP),
                                name="Trace_ClosuresImpl(page=%d,closure=%d)" % (page, slot), raw=True)
     pred = {}
-    for m in re.finditer(r'"SLOTS (\d+) <<([^>]*)>>"', out):
-        pred[int(m.group(1)) - 1] = [int(x) for x in m.group(2).split(",") if x.strip()]
+    for m in re.finditer(r'"SLOTS (\d+) (in|OUT) <<([^>]*)>>"', out):
+        pred[int(m.group(1)) - 1] = [int(x) for x in m.group(3).split(",") if x.strip()]
+        if m.group(2) != "in":
+            raise core.MachineryError("the faithful model predicts a closure outside its chunk's mapping")
     if len(pred) != len(impl_traces):
         raise core.MachineryError("Trace_ClosuresImpl: %d predictions for %d sessions\n%s" % (
             len(pred), len(impl_traces), out[-1500:]))
@@ -371,14 +418,15 @@ def design_level(ctx, quick):
         ctx.add_tlc("MC_Closures(4cbs,2sigs,blocks 1/3/4)", r)
 
     def variant(v):
-        r = core.tlc("Closures", cfg_text=MC % ("1,2,3", 2, v, ""), workers=2, timeout=3000)
+        r = core.tlc("Closures", cfg_text=MC % ("1,2,3", 2, v, "INVARIANT InsideMapping" if v == "cap-after-count" else ""),
+                     workers=2, timeout=3000)
         ctx.add_tlc("sanity:" + v, r, require_ok=False, count_states=False)
         if r.ok or "is violated" not in r.out:
             raise core.MachineryError("broken variant %s of Closures was not rejected by TLC:\n%s" % (v, r.out[-1500:]))
     jobs = {"mc": (mc, ())}
     if not quick:
         jobs["mc4"] = (mc4, ())
-    for v in ("nopop", "doublefree", "doublefree-on-oom", "stalebind"):
+    for v in ("nopop", "doublefree", "doublefree-on-oom", "stalebind", "cap-after-count"):
         jobs[v] = (variant, (v,))
     life_common.parallel(jobs)
     g = tlaval.load_dot(dump + ".dot", parse=False)
@@ -417,6 +465,9 @@ def run(ctx):
         sessions.append(("random", gen_random(rng, 2500 if quick else 12000, rng.choice([80, 240, 460, 800]),
                                               bounds, False), True))
     sessions.append(("burst", gen_burst(rng, peak), True))
+    allbounds = block_boundaries(page, slot, 45000)
+    for n in ([20000] if quick else [25000, 40000]):
+        sessions.append(("big-burst", gen_bigburst(rng, n, allbounds), True))
     for i in range(2 if quick else 6):
         sessions.append(("random-with-gc-cycles", gen_random(rng, 1500 if quick else 8000, rng.choice([80, 240, 460]),
                                                              bounds, True), False))
@@ -440,16 +491,29 @@ def run(ctx):
                           {"kind": kind, "ops": ops[:(death["op_index"] or 0) + 1]})
         ctx.case((kind, i), n=len(events))
     jobs = {}
-    ich = life_common.chunks_by_events(ideals, 80000, 1000)
+    # the traces given to the ideal: huge sessions are sharded by address; origin[t] = (session, positions)
+    flat, origin = [], []
+    for i, ideal in enumerate(ideals):
+        if len(ideal) > 15000:
+            for tr, pos in shard(ideal):
+                flat.append(tr)
+                origin.append((i, pos))
+        else:
+            flat.append(ideal)
+            origin.append((i, None))
+    ich = life_common.chunks_by_events(flat, 80000, 1000)
     for ci, (base, ch) in enumerate(ich):
         jobs["ideal%d" % ci] = (validate_ideal, (ctx, ch))
-    pch = life_common.chunks_by_events(impls, 80000, 1000)
+    pch = life_common.chunks_by_events(impls, 20000, 1000)
     for ci, (base, ch) in enumerate(pch):
         jobs["impl%d" % ci] = (predict, (ctx, ch, page, slot))
     res2 = life_common.run_limited(jobs, 4)
     out = {"ideal": {}, "impl": {}}
     for ci, (base, ch) in enumerate(ich):
-        out["ideal"].update({base + k: v for k, v in res2["ideal%d" % ci].items()})
+        for k, (v, pos) in res2["ideal%d" % ci].items():
+            i, posmap = origin[base + k]
+            if i not in out["ideal"]:          # first failing shard of a session
+                out["ideal"][i] = (v, pos if posmap is None or pos > len(posmap) else posmap[pos - 1] + 1)
     for ci, (base, ch) in enumerate(pch):
         out["impl"].update({base + k: v for k, v in res2["impl%d" % ci].items()})
     phase("tlc-validate")
@@ -489,7 +553,7 @@ def run(ctx):
     ctx.cov["max_live_callbacks"] = maxlive
     ctx.cov["address_reuses"] = reused
     ctx.cov["closure_size"], ctx.cov["page_size"] = slot, page
-    ctx.cov["block_boundaries_crossed"] = [b for b in bounds if b <= maxlive]
+    ctx.cov["block_boundaries_crossed"] = [b for b in allbounds if b <= maxlive]
     for i in (0, 1, len(sessions) - 1):
         ev = res[i][0]
         ctx.sample({"kind": sessions[i][0], "operations": len(sessions[i][1]),
